@@ -1,0 +1,22 @@
+//go:build verif
+
+// Verification hooks (read-only): compiled only with -tags verif.
+
+package obfs3
+
+import "fmt"
+
+// VerifConstants returns the package constants as the compiler evaluated them.
+func VerifConstants() map[string]string {
+	m := map[string]string{}
+	put := func(k string, v interface{}) { m[k] = fmt.Sprint(v) }
+	put("clientHandshakeTimeout", int64(clientHandshakeTimeout))
+	put("serverHandshakeTimeout", int64(serverHandshakeTimeout))
+	put("initiatorKdfString", initiatorKdfString)
+	put("responderKdfString", responderKdfString)
+	put("initiatorMagicString", initiatorMagicString)
+	put("responderMagicString", responderMagicString)
+	put("maxPadding", maxPadding)
+	put("keyLen", keyLen)
+	return m
+}
